@@ -143,6 +143,24 @@ func runMSM(r *core.Result, mc msmCase, nbTasks int, mont bool, desc string) {
 			vio(r, "c09.result_alias", "banderwagon.Element.MultiExp", desc, "package-level Identity/Generator unaffected by writing to the returned element", "package variable changed: "+msg)
 		}
 	}
+	if n := len(mc.pts); n > 0 && n <= 8 {
+		// the receiver may be one of the inputs
+		for _, k := range []int{0, n - 1} {
+			ptsA := append([]banderwagon.Element(nil), keepP...)
+			var outA *banderwagon.Element
+			var errA error
+			if timed(r, "c09.panic", "banderwagon.Element.MultiExp", desc+fmt.Sprintf(" receiver = &points[%d]", k), func() {
+				outA, errA = ptsA[k].MultiExp(ptsA, sc, banderwagon.MultiExpConfig{NbTasks: nbTasks, ScalarsMont: mont})
+			}) {
+				r.Evals++
+				if errA != nil || outA == nil {
+					vio(r, "c09.msm", "banderwagon.Element.MultiExp", desc+fmt.Sprintf(" receiver = &points[%d]", k), "a result", fmt.Sprintf("err=%v", errA))
+				} else if msg := validSame(outA, mc.want); msg != "" {
+					vio(r, "c09.alias", "banderwagon.Element.MultiExp", desc+fmt.Sprintf(" receiver = &points[%d]", k), "sum s_i*P_i = "+affStr(mc.want), msg)
+				}
+			}
+		}
+	}
 	for i := range sc {
 		if sc[i] != keepS[i] || mc.pts[i] != keepP[i] {
 			vio(r, "c09.input_intact", "banderwagon.Element.MultiExp", desc, "points and scalars unchanged", fmt.Sprintf("index %d modified", i))
